@@ -235,12 +235,12 @@ def worker(ctx: Ctx):
     paths = [p for p in STOCHASTIC_SHIPPED if os.path.exists(os.path.join("/repo", p))]
     if q:
         paths = [p for p in paths if "uc7_config_tap003" not in p and "nmap_network_service_recon" not in p]
-    n_ship, n_gen = (2, 2) if q else (40, 40)
+    n_ship, n_gen = (2, 2) if q else (20, 20)
     cases = collect(shipped_case(paths), n_ship, ctx.wseed * 10) + collect(gen_case(), n_gen, ctx.wseed * 10 + 1)
     if not q or ctx.idx % 2 == 0:
-        cases += collect(folder_case(rot=ctx.idx // 2 + ctx.seed), 1 if q else 10, ctx.wseed * 10 + 2)
+        cases += collect(folder_case(rot=ctx.idx // 2 + ctx.seed), 1 if q else 5, ctx.wseed * 10 + 2)
     if ctx.idx < 2 or not q:  # quick: worker 0 runs the TAP001 scenario, worker 1 the TAP003 one
-        cases += collect(uc7_long_case(which=ctx.idx), 1 if q else 3, ctx.wseed * 10 + 3)
+        cases += collect(uc7_long_case(which=ctx.idx), 1 if q else 2, ctx.wseed * 10 + 3)
     chunk = 12
     for i in range(0, len(cases), chunk):
         part = cases[i:i + chunk]
